@@ -233,6 +233,47 @@ class FuncAnalysis:
             child = p
         return out
 
+    def path_guards(self, target: ast.AST) -> List[tuple]:
+        """Predicates under which target is reached, read off the statement structure: the tests of the enclosing `if`s AND the
+        negated tests of the guard clauses before it in the enclosing blocks (`if c: continue / return / raise / break` followed
+        by the rest is `if not c: <rest>`), up to the enclosing loop body or the function. Conjunctions are split."""
+        out = []
+        child = target
+
+        def add(test, neg):
+            n = self.cfg.node_of(test)
+            c = cmp_strip_nan(self.sym.cmp(test, n.id if n else None, neg=neg))
+            out.extend(c[1] if c[0] == "and" else [c])
+        for p in parents(target):
+            for field in ("body", "orelse", "finalbody"):
+                blk = getattr(p, field, None)
+                if isinstance(blk, list) and any(child is s_ for s_ in blk):
+                    for s_ in blk:
+                        if s_ is child:
+                            break
+                        if isinstance(s_, ast.If) and not s_.orelse and s_.body and isinstance(s_.body[-1], (ast.Return, ast.Raise, ast.Continue, ast.Break)):
+                            add(s_.test, True)
+                        elif isinstance(s_, ast.If) and s_.orelse and isinstance(s_.orelse[-1], (ast.Return, ast.Raise, ast.Continue, ast.Break)) and not isinstance(s_.body[-1], (ast.Return, ast.Raise, ast.Continue, ast.Break)):
+                            add(s_.test, False)
+            if p is self.f.node:
+                break
+            if isinstance(p, ast.If):
+                if any(child is s_ for s_ in p.body):
+                    add(p.test, False)
+                elif any(child is s_ for s_ in p.orelse):
+                    add(p.test, True)
+            if isinstance(p, (ast.For, ast.While)) and any(child is s_ for s_ in p.body):
+                child = p
+                break
+            child = p
+        seen, res = set(), []
+        for c in out:
+            k = cmp_key(c)
+            if k not in seen:
+                seen.add(k)
+                res.append(c)
+        return res
+
     def seg(self, node: ast.AST) -> str:
         return self.f.module.seg(node)
 
